@@ -26,11 +26,13 @@
     the feature ordering is a strict weak order
   Carried by the exhaustive small-scope correspondence + executable set-of-bases spec only
   (see DESIGN.md): the error paths of connect (inputs that bridge the origin but cannot be split);
-  extension of multi-exon and of reverse-strand origin-spanning locations; offset of multi-exon gene locations.
+  extension of multi-exon locations wrapping over a record edge (multi-exon on a line / without wrap, both strands: `extend_multi_exact`, `extend_multi_rev_exact`; reverse-strand origin-spanning span: `extend_ring_area_rev_exact`); offset of multi-exon gene locations.
 -/
 import ASV.Proofs.LocOrder
 import ASV.Proofs.LocString
 import ASV.Proofs.LocMergeAdjacent
+import ASV.Proofs.LocExtendAreaRev
+import ASV.Proofs.LocExtendMulti
 import ASV.Proofs.LocExtend
 import ASV.Proofs.LocConnectRing
 import ASV.Proofs.LocOffsetArea
@@ -333,6 +335,58 @@ theorem extend_ring_area_exact (x y d L : Int) (hL : 0 < L) (hy0 : 0 < y) (hyx :
       areaWF L L r = true :=
   ⟨_, extend_area_ring_eq x y d L hL hy0 hyx hxL hd, extAreaRing_mem x y d L hL hy0 hyx hxL hd,
     extAreaRing_wf x y d L hL hy0 hyx hxL hd⟩
+
+/-- the same for the reverse-strand origin-spanning span `[0, y)(−), [x, L)(−)` (Biopython's part order
+    for a reverse-strand feature over the origin): exactly the bases within the distance, as the whole
+    record or as two disjoint parts in the same (reverse-strand) order -/
+theorem extend_ring_area_rev_exact (x y d L : Int) (hL : 0 < L) (hy0 : 0 < y) (hyx : y ≤ x) (hxL : x < L) (hd : 0 ≤ d) :
+    ∃ r, extendLocation (areaTwoRev x y L) d L true = .ok r ∧
+      (∀ i, r.mem i = true ↔ (0 ≤ i ∧ i < L ∧ ∃ j, (areaTwoRev x y L).mem j = true ∧ ringAbs L i j ≤ d)) ∧
+      (r = .simple ⟨0, L, .rev⟩ ∨ (r = .compound [⟨0, y + d, .rev⟩, ⟨x - d, L, .rev⟩] ∧ y + d ≤ x - d)) := by
+  refine ⟨_, extend_area_ring_rev_eq x y d L hL hy0 hyx hxL hd, extAreaRingRev_mem x y d L hL hy0 hyx hxL hd, ?_⟩
+  unfold extAreaRingRev
+  by_cases hG : x - y < 2 * d
+  · rw [if_pos hG]; exact Or.inl rfl
+  · rw [if_neg hG]; exact Or.inr ⟨rfl, by omega⟩
+
+example : extendLocation (areaTwoRev 90 10 100) 5 100 true = .ok (.compound [⟨0, 15, .rev⟩, ⟨85, 100, .rev⟩]) ∧
+    extendLocation (areaTwoRev 90 10 100) 45 100 true = .ok (.simple ⟨0, 100, .rev⟩) := ⟨by rfl, by rfl⟩
+
+/-- extending a location with two or more parts (a gene with introns; forward or unstranded, parts in
+    ascending order) on a linear record, or on a circular record when neither end reaches the record
+    edge: the outer ends move by the distance (clipped at the record ends), inner parts and introns
+    are untouched — the result has the input's bases plus exactly the two flanks -/
+theorem extend_multi_exact (p0 pn : Part) (mid : List Part) (d mx : Int) (circ : Bool)
+    (hs : (Loc.compound (p0 :: (mid ++ [pn]))).strand ≠ .rev)
+    (hsep : p0.hi ≤ pn.lo) (h0 : p0.lo < p0.hi) (hn : pn.lo < pn.hi) (hd : 0 ≤ d) (hmx : pn.hi ≤ mx) (hlo : 0 ≤ p0.lo)
+    (hc : circ = true → bridgesOrigin (Loc.compound (p0 :: (mid ++ [pn]))) = false ∧ pn.hi + d ≤ mx ∧ d ≤ p0.lo) :
+    ∃ r, extendLocation (.compound (p0 :: (mid ++ [pn]))) d mx circ = .ok r ∧
+      ∀ i, r.mem i = true ↔ ((Loc.compound (p0 :: (mid ++ [pn]))).mem i = true ∨
+        (max 0 (p0.lo - d) ≤ i ∧ i < p0.lo) ∨ (pn.hi ≤ i ∧ i < min (pn.hi + d) mx)) := by
+  refine ⟨_, ?_, extend_line_multi_mem p0 pn mid d mx h0 hn hd hmx hlo⟩
+  cases circ with
+  | false => exact extend_line_multi_eq p0 pn mid d mx hs hsep h0 hn hd hmx hlo
+  | true =>
+    obtain ⟨hb, h1, h2⟩ := hc rfl
+    exact extend_ring_multi_nowrap_eq p0 pn mid d mx hs hb hsep h0 hn hd h1 h2
+
+/-- the same for a reverse-strand location (parts in Biopython's descending order) -/
+theorem extend_multi_rev_exact (p0 pn : Part) (mid : List Part) (d mx : Int) (circ : Bool)
+    (hs : (Loc.compound (p0 :: (mid ++ [pn])).reverse).strand = .rev)
+    (hsep : p0.hi ≤ pn.lo) (h0 : p0.lo < p0.hi) (hn : pn.lo < pn.hi) (hd : 0 ≤ d) (hmx : pn.hi ≤ mx) (hlo : 0 ≤ p0.lo)
+    (hc : circ = true → bridgesOrigin (Loc.compound (p0 :: (mid ++ [pn])).reverse) = false ∧ pn.hi + d ≤ mx ∧ d ≤ p0.lo) :
+    ∃ r, extendLocation (.compound (p0 :: (mid ++ [pn])).reverse) d mx circ = .ok r ∧
+      ∀ i, r.mem i = true ↔ ((Loc.compound (p0 :: (mid ++ [pn])).reverse).mem i = true ∨
+        (max 0 (p0.lo - d) ≤ i ∧ i < p0.lo) ∨ (pn.hi ≤ i ∧ i < min (pn.hi + d) mx)) := by
+  refine ⟨_, extend_multi_rev_eq p0 pn mid d mx circ hs hsep h0 hn hd hmx hlo hc, fun i => ?_⟩
+  rw [mem_reverse_compound, mem_reverse_compound]
+  exact extend_line_multi_mem p0 pn mid d mx h0 hn hd hmx hlo i
+
+example : extendLocation (.compound [⟨50, 60, .rev⟩, ⟨30, 40, .rev⟩, ⟨10, 20, .rev⟩]) 15 100 false
+    = .ok (.compound [⟨50, 75, .rev⟩, ⟨30, 40, .rev⟩, ⟨0, 20, .rev⟩]) := by rfl
+
+example : extendLocation (.compound [⟨10, 20, .fwd⟩, ⟨30, 40, .fwd⟩, ⟨50, 60, .fwd⟩]) 15 100 false
+    = .ok (.compound [⟨0, 20, .fwd⟩, ⟨30, 40, .fwd⟩, ⟨50, 75, .fwd⟩]) := by rfl
 
 /-- the two layouts on which the code returned three overlapping parts before D59
     (`[90:100], [0:100], [0:25]` and `[60:100], [0:100], [0:10]`): now the whole record -/
